@@ -3,11 +3,14 @@
 Every case is (history, probe): the probe operation is executed (A) as the first thing done in a process and
 (B) after a history of 1-12 operations on unrelated designs of comparable scale, both in processes forked from
 the pristine import-time state of a fresh interpreter (harness/props/c20_worker.py; a sample is cross-checked
-against truly fresh interpreters).  The direct oracle demands equal canonical digests of the observable result.
+against truly fresh interpreters).  Two families of histories: UNRELATED designs (gen_group) and NEAR-DUPLICATES of
+the probed design, the probe itself included (gen_related_group, harness/props/c20_related.py) - a memo table keyed
+too coarsely only collides on the latter.  The direct oracle demands equal canonical digests of the observable result.
 The model side (coq/History/State.v): the first-writer-wins tolerance trace of the history, the prediction of
 WHERE a dependence on the tolerance appears (model output under the tolerance the history installed vs under the
 probe's own), the robustness predicate of the eps_insensitive theorems, and the C07 posting model started from
 the diagram store the history left behind."""
+import copy
 import json
 import math
 import os
@@ -19,6 +22,8 @@ from harness import core, fr
 from harness.core import gq, gbool, gstr, glist, gnat
 from harness.props import alloc_common as ac
 from harness.props import c01, c06, c07, c15
+from harness.props import c20_related as rel
+from harness.props import c20_worker as c20w
 from harness.props import netlist_common as nc
 
 HEADER = """From Coq Require Import ZArith List Bool String.
@@ -42,7 +47,10 @@ ASSUMPTIONS = [
     "1e-12) and 16 roundings (the square root, checked by squaring)",
     "the model of Netlist._create_rectangles mirrors fixes/C20-infinite-epsilon.diff (a netlist without any "
     "dimension leaves the tolerances undefined instead of installing an infinite one)",
-    "the legaliser, Strop and default-argument probes are compared by digest only (their models have no state)",
+    "the legaliser probes are compared by digest only (the model's builder is a Section variable); Strop and "
+    "default-argument probes are compared with the model evaluated from the import-time default objects",
+    "related histories: an operation whose candidate tolerance the harness does not predict (documents with "
+    "region-wise areas, YAML texts) is placed after a first writer whose candidate is predicted",
     "BDD node ids are renamed by the structure of the node (variable, canonical names of the children)",
 ]
 
@@ -270,6 +278,8 @@ def gen_die(rng, P, variant="robust", decimal=False):
     doc = {k: ([[pv(x) for x in r] for r in v] if (k == "regions" and nested) else
                ([pv(x) for x in v] if k == "regions" else pv(v))) for k, v in tree.items()}
     op = {"k": "die", "doc": doc, "netlist": None}
+    if rng.random() < 0.25 and rel.refine_safe(W, H, [b[:4] for b in boxes]):
+        op["refine"] = [rng.choice([1.5, 2.0, 3.0]), rng.choice([1, 4, 9, 16])]      # split_refinable_regions
     cand = []
     ds = [W, H] + [b[2] for b in boxes] + [b[3] for b in boxes]
     if fixed:
@@ -369,6 +379,28 @@ def gen_yaml_text_probe(rng):
            "Nets: [[A, B], [A, B, C, 2]]\n")
     return {"op": {"k": "netlist", "text": txt}, "kind": "netlist", "stream": "decimal", "variant": None,
             "dims": [F(1), F(100)], "note": "yaml-text", "cand": None}
+
+
+def gen_long_text_probe(rng):
+    """a netlist given as YAML text of more than 4096 characters (one module per line): near-duplicates differ far
+    behind the beginning of the text"""
+    n = rng.choice([100, 130, 170])
+    lines, small = ["Modules:"], []
+    for i in range(n):
+        w, h = F(rng.randrange(4, 60), 4), F(rng.randrange(4, 60), 4)
+        x0, y0 = F(rng.randrange(0, 400), 4), F(rng.randrange(0, 400), 4)
+        if rng.random() < 0.3:
+            lines.append(f"  H{i:03d}: {{area: {fl(w * h)!r}}}")
+            small.append(F(math.sqrt(fl(w * h))))
+        else:
+            lines.append(f"  H{i:03d}: {{rectangles: [[{fl(x0 + w / 2)!r}, {fl(y0 + h / 2)!r}, {fl(w)!r}, {fl(h)!r}]], "
+                         f"hard: true}}")
+            small += [w, h]
+    nets = [f"[H{rng.randrange(n):03d}, H{rng.randrange(n):03d}, {rng.randrange(1, 9)}]" for _ in range(6)]
+    lines.append("Nets: [" + ", ".join(nets) + "]")
+    txt = "\n".join(lines) + "\n"
+    return {"op": {"k": "netlist", "text": txt}, "kind": "netlist", "stream": "decimal", "variant": None,
+            "dims": [min(small), max(small)], "note": "long-text", "cand": None}
 
 
 def gen_sat(rng):
@@ -507,9 +539,10 @@ def gen_history_op(rng, probe, base):
     return None
 
 
-def gen_probe(rng, quick=True):
-    kind = rng.choices(["stog", "alloc", "die", "netlist", "sat", "legal", "strop", "defaults", "die-decimal",
-                        "stog-decimal"], [18, 16, 16, 12, 14, 7, 6, 6, 6, 3])[0]
+def gen_probe(rng, quick=True, kind=None):
+    if kind is None:
+        kind = rng.choices(["stog", "alloc", "die", "netlist", "sat", "legal", "strop", "defaults", "die-decimal",
+                            "stog-decimal"], [18, 16, 16, 12, 14, 7, 6, 6, 6, 3])[0]
     base = pow2(rng.choice([-6, -3, 0, 0, 0, 2, 5, 9]))
     variant = "nonrobust" if rng.random() < 0.3 else "robust"
     if kind == "stog":
@@ -540,7 +573,8 @@ def gen_probe(rng, quick=True):
 def strip(d):
     """what is stored in a case: the operation and the meta data needed by the model side"""
     return {"op": d["op"], "kind": d["kind"], "stream": d.get("stream"), "variant": d.get("variant"),
-            "dims": d.get("dims"), "cand": d.get("cand"), "note": d.get("note", ""), "fixed": d.get("fixed")}
+            "dims": d.get("dims"), "cand": d.get("cand"), "note": d.get("note", ""), "fixed": d.get("fixed"),
+            "needs_installer": bool(d.get("needs_installer"))}
 
 
 def gen_group(rng, nprobes):
@@ -609,13 +643,132 @@ def admissible(p, h):
 
 
 # --------------------------------------------------------------------------
+# histories of RELATED designs: near-duplicates of the probe (harness/props/c20_related.py), the probe itself,
+# and a few unrelated operations in between
+# --------------------------------------------------------------------------
+REL_KINDS = ["die-grid", "die", "alloc", "stog", "netlist", "sat", "die-grid", "die", "legal", "alloc", "strop",
+             "netlist", "stog", "sat", "die-grid", "defaults", "die", "netlist-simple", "die-grid-large",
+             "netlist-long"]
+
+
+# near-duplicates of a die are probed only while the grid of cut coordinates stays small: the cost of evaluating the
+# die model in Coq grows steeply with the number of cells, and every near-duplicate of a large die is large
+MAX_REL_CELLS = 20
+
+
+def installs(h):
+    """an operation whose candidate tolerance is known and defined: it installs the tolerances when none are"""
+    return (not h.get("needs_installer")) and any(c[1] is not None for c in (h.get("cand") or []))
+
+
+def fix_installer(rng, hist, probe):
+    """operations whose candidate tolerance is not predicted (documents with region-wise areas, texts) must come
+    after a first writer whose candidate is: the tolerance trace of the history stays fully predicted by the model"""
+    if not any(h.get("needs_installer") for h in hist):
+        return hist
+    first = next((i for i, h in enumerate(hist) if installs(h)), None)
+    if first is None:
+        inst = None
+        for P in (F(1), F(4), F(1, 4), F(16), F(1, 16), F(64), F(256)):
+            for _ in range(4):
+                h = strip(gen_netlist_hist(rng, P, decimal=False))
+                if installs(h) and admissible(probe, h):
+                    inst = h
+                    break
+            if inst is not None:
+                break
+        if inst is None:
+            return [h for h in hist if not h.get("needs_installer")]
+        return [inst] + hist
+    early = [h for h in hist[:first] if h.get("needs_installer")]
+    return [h for h in hist[:first] if not h.get("needs_installer")] + [hist[first]] + early + hist[first + 1:]
+
+
+def installer_rule_ok(hist):
+    seen = False
+    for h in hist:
+        if installs(h):
+            seen = True
+        elif h.get("needs_installer") and not seen:
+            return False
+    return True
+
+
+def gen_related_group(rng, kind):
+    """one history made of near-duplicates of the probed designs; the probe and some of its near-duplicates are each
+    executed (in their own fork) at its end, so every probed design has itself and its neighbours in the history"""
+    if kind in ("die-grid", "die-grid-large"):
+        base = pow2(rng.choice([-6, -3, 0, 0, 0, 2, 5, 9]))
+        fam = [strip(m) for m in rel.die_grid_family(rng, base, large=kind == "die-grid-large")]
+        lead = fam[0]
+        probes = [fam[0]] + rng.sample(fam[1:], min(3, len(fam) - 1))
+        chosen = list(fam)
+        chosen += [copy_of(m) for m in probes if rng.random() < 0.5]              # executed twice
+    else:
+        pk = {"netlist-simple": "netlist", "netlist-long": "netlist"}.get(kind, kind)
+        p, base = gen_probe(rng, kind=pk)
+        for _ in range(20):
+            if pk != "die" or rel.die_cells(p) <= MAX_REL_CELLS:
+                break
+            p, base = gen_probe(rng, kind=pk)          # a die whose model evaluates quickly (see MAX_REL_CELLS)
+        if kind == "netlist-simple":
+            base = pow2(rng.choice([-6, -3, 0, 0, 2, 5]))
+            p = gen_netlist_hist(rng, base)
+            p["variant"] = None
+        if kind == "netlist-long":
+            p, base = gen_long_text_probe(rng), F(1)
+        if pk == "die" and "refine" not in p["op"] and rng.random() < 0.5:
+            W_, H_, bx_, fx_, _ = rel.die_parts(dict(p, fixed=p.get("fixed")))
+            if rel.refine_safe(W_, H_, [b[:4] for b in bx_] + fx_):
+                p["op"]["refine"] = [rng.choice([1.5, 2.0, 3.0]), rng.choice([1, 4, 9, 16])]
+        if pk == "alloc":
+            # the probed run exercises every operation of the class at least once
+            have = {o[0] for o in p["op"]["ops"]}
+            if "refine" not in have:
+                p["op"]["ops"].append(["refine", rng.choice([0.25, 0.5, 0.9375]), rng.choice([1, 2])])
+            if "griddify" not in have and "uniform" not in have and len(p["op"]["ops"]) < 3:
+                p["op"]["ops"].insert(rng.randrange(len(p["op"]["ops"]) + 1), [rng.choice(["griddify", "uniform"])])
+        lead = strip(p)
+        fam = [strip(m) for m in rel.relatives(rng, lead)]
+        selfs = [m for m in fam if m["note"] == "rel:self"]
+        others = [m for m in fam if m["note"] != "rel:self"]
+        # every near-duplicate, or a handful of them
+        chosen = list(others) if rng.random() < 0.5 else rng.sample(others, min(len(others), rng.randrange(3, 10)))
+        chosen += [copy_of(selfs[0]) for _ in range(rng.choice([0, 1, 1, 2, 3]))] if selfs else []
+        cheap = [m for m in others if m["kind"] != "die" or rel.die_cells(m) <= MAX_REL_CELLS]
+        probes = [lead] + rng.sample(cheap, min(len(cheap), 2))
+    rng.shuffle(chosen)
+    for _ in range(rng.choice([0, 0, 1, 2, 3])):
+        h = gen_history_op(rng, lead, base)
+        if h is not None:
+            chosen.insert(rng.randrange(len(chosen) + 1), strip(h))
+    cases = []
+    for p in probes:
+        hs = fix_installer(rng, [h for h in chosen if admissible(p, h)], p)
+        if hs and installer_rule_ok(hs):
+            cases.append({"history": hs, "probe": dict(p, needs_installer=False)})
+    return cases
+
+
+def copy_of(d):
+    return copy.deepcopy(d)
+
+
+# --------------------------------------------------------------------------
 # executing cases (batched)
 # --------------------------------------------------------------------------
 _CACHE = {}
 
 
+def okey(x) -> str:
+    """an ORDER-SENSITIVE hash: two documents that differ only in the order of their modules (dictionary keys) are
+    different designs here (core.canon_hash sorts the keys and would identify them)"""
+    import hashlib
+    return hashlib.sha1(json.dumps(fr.tojson(x), sort_keys=False, default=str).encode()).hexdigest()
+
+
 def case_key(case):
-    return core.canon_hash(fr.tojson(case))
+    return okey(case)
 
 
 def wj(x):
@@ -670,14 +823,14 @@ def run_batch(cases, par=8):
     probe alone; then the attribution runs for the pairs that differ"""
     groups, order = {}, []
     for c in cases:
-        hk = core.canon_hash(fr.tojson(c["history"]))
+        hk = okey(c["history"])
         if hk not in groups:
             groups[hk] = {"history": c["history"], "cases": []}
             order.append(hk)
         groups[hk]["cases"].append(c)
     probes, pidx = [], {}
     for c in cases:
-        pk = core.canon_hash(fr.tojson(c["probe"]["op"]))
+        pk = okey(c["probe"]["op"])
         if pk not in pidx:
             pidx[pk] = len(probes)
             probes.append(c["probe"]["op"])
@@ -702,7 +855,7 @@ def run_batch(cases, par=8):
     for hk in order:
         r = res[hk]
         for i, c in enumerate(groups[hk]["cases"]):
-            pk = core.canon_hash(fr.tojson(c["probe"]["op"]))
+            pk = okey(c["probe"]["op"])
             a = alone[pidx[pk]]
             if "probes" not in r:
                 obs = {"crash": str(r.get("worker_error", "no result"))}
@@ -830,6 +983,67 @@ def sat_check(case, raw):
     return c07.to_coq({"posts": posts}, obs)
 
 
+def gtree_expr(terms, const):
+    """tools.rect.pseudobool expression built as the worker's build_expr does"""
+    t = "TZero"
+    for v, sgn, c in terms:
+        t = f"(TAddTerm {t} {gstr(c20w.PRE + v)} {gbool(sgn)} ({int(c)})%Z)"
+    if const != 0:
+        t = f"(TAddInt {t} ({int(const)})%Z)"
+    return t
+
+
+DOP = {">=": "GE", "<=": "LE", ">": "GT", "<": "LT", "=": "EQ", "==": "EQ2"}
+
+
+def defaults_check(op, o):
+    """the model's steps from the import-time default objects against the observed ones"""
+    if not isinstance(o, dict) or "steps" not in o:
+        return "false"
+    steps = []
+    for st in op["steps"]:
+        k = st[0]
+        if k == "ineq0":
+            steps.append("DIneq None None GE")
+        elif k == "ineq_l":
+            steps.append(f"DIneq (Some {gtree_expr(st[1], st[2])}) None GE")
+        elif k == "ineq_r":
+            steps.append(f"DIneq None (Some {gtree_expr(st[1], st[2])}) GE")
+        elif k == "ineq_op":
+            steps.append(f"DIneq None None {DOP[st[1]]}")
+        elif k == "expr0":
+            steps.append("DExpr")
+        else:
+            steps.append("DUse")
+    outs = []
+    for x in o["steps"]:
+        if isinstance(x, dict):
+            return "false"                       # a step raised: the model never does
+        if x[0] == "ineq":
+            if x[2] != 0 or x[5] is not None:
+                return "false"                   # lhs.c is reset to 0, clause starts as None
+            ts = glist([f"(mkT {gstr(t[1])} {gbool(t[2])} ({int(t[3])})%Z)" for t in x[1]])
+            outs.append(f"DOIneq (mkI {ts} ({int(x[3])})%Z {DOP[x[4]]})")
+        else:
+            ts = glist([f"(mkT {gstr(t[1])} {gbool(t[2])} ({int(t[3])})%Z)" for t in x[2]])
+            outs.append(f"DOExpr (mkE ({int(x[1])})%Z {ts})")
+    return f"defaults_ck {glist(steps)} {glist(outs)}"
+
+
+def strop_check(op, o):
+    rows = glist([gstr(r) for r in op["matrix"].split()])
+
+    def gsizes(v):
+        return "None" if v is None else f"(Some {glist([gq(F(x)) for x in v])})"
+    head = f"strop_ck {rows} {gsizes(op.get('height'))} {gsizes(op.get('width'))}"
+    if not isinstance(o, dict) or "instances" not in o:
+        return f"{head} None" if isinstance(o, dict) and o.get("raised") == "AssertionError" else "false"
+    inst = sorted(o["instances"], key=lambda rs: rs[0] if rs else [])
+    e = glist([glist([f"({a}, {b}, {c}, {d})%nat" for a, b, c, d in rs]) for rs in inst])
+    return (f"{head} (Some ({e}, {gbool(o['is'])}, {glist([gq(F(x)) for x in o['height']])}, "
+            f"{glist([gq(F(x)) for x in o['width']])}))")
+
+
 def to_coq(case, obs):
     parts = []
     p = case["probe"]
@@ -866,13 +1080,19 @@ def to_coq(case, obs):
             d, deps, tin = gdie(case)
             arg = f"{deps} {tin} {d}"
             nm = "die"
-        parts.append(f"Bool.eqb ({nm}_same {two} {arg}) {gbool(same)}")
-        parts.append(f"implb ({nm}_robust {band} {arg}) ({nm}_same {two} {arg})")
+        # (the model under the two tolerances is evaluated once)
+        parts.append(f"let s := {nm}_same {two} {arg} in Bool.eqb s {gbool(same)} && "
+                     f"implb ({nm}_robust {band} {arg}) s")
         parts.append(f"in_band {band} {gq(e1[0])} {gq(e1[1])} && in_band {band} {gq(e2[0])} {gq(e2[1])}")
     # 3. the SAT layer from the store the history left behind
     if p["kind"] == "sat":
         parts.append(sat_check(case, obs.get("raw_after")))
         parts.append(sat_check(case, obs.get("raw_alone")))
+    # 4. objects built from default arguments / Strop: the model from the import-time default objects
+    if p["kind"] in ("defaults", "strop"):
+        chk = defaults_check if p["kind"] == "defaults" else strop_check
+        for side in ("alone", "after"):
+            parts.append(chk(p["op"], unwj(obs[side]["obs"])))
     return " && ".join(f"({x})" for x in parts) if parts else "true"
 
 
@@ -931,13 +1151,24 @@ def failure_key(case, why):
 # --------------------------------------------------------------------------
 # shrinking: shorten the history
 # --------------------------------------------------------------------------
+SHRINK_T = [0.0, 0]
+
+
 def shrink(case):
     h = case["history"]
     if len(h) > 1:
-        yield dict(case, history=h[:len(h) // 2])
-        yield dict(case, history=h[len(h) // 2:])
-        for i in range(len(h)):
-            yield dict(case, history=h[:i] + h[i + 1:])
+        cands = [h[:len(h) // 2], h[len(h) // 2:]] + [h[:i] + h[i + 1:] for i in range(len(h))]
+        # the tolerance trace of the shortened history must stay predicted
+        cands = [dict(case, history=c) for c in cands if installer_rule_ok(c)]
+        # all candidates of a round are executed in one batch of workers (run_impl then finds them in the cache)
+        todo = [c for c in cands if case_key(c) not in _CACHE]
+        if todo:
+            import time
+            t0 = time.time()
+            _CACHE.update(run_batch(todo, par=10))
+            SHRINK_T[0] += time.time() - t0
+            SHRINK_T[1] += 1
+        yield from cands
 
 
 def nontrivial(case):
@@ -977,17 +1208,56 @@ def fresh_crosscheck(ctx, out, cases, n):
                                       "why": "forked and fresh-interpreter executions give different digests",
                                       "fresh": [a, b], "forked": [obs["alone"]["digest"], obs["after"]["digest"]]})
     out.extra["fresh_interpreter_crosscheck"] = {"cases": len(sample), "mismatches": bad}
+    _t("fresh cross-check")
+
+
+def _t(label, t0=[None]):
+    import time
+    now = time.time()
+    if os.environ.get("C20_TIMING") and t0[0] is not None:
+        sys.stderr.write(f"[c20 timing] {label}: {now - t0[0]:.1f}s\n")
+    t0[0] = now
+
+
+def audit_state(out):
+    """tools-level static audit of module-/class-level mutable state (harness/props/c20_audit.py) against the
+    list recorded for the pinned tree (c20_state_sites.json); returns the related-group kinds to add"""
+    from harness.props import c20_audit
+    try:
+        base = json.loads((core.VERIF / "harness" / "props" / "c20_state_sites.json").read_text())
+        keys = sorted({c20_audit.site_key(s) for s in c20_audit.audit(str(core.REPO))})
+    except Exception as e:          # the audit is an aid, never a verdict
+        out.extra["state_audit"] = {"error": f"{type(e).__name__}: {e}"}
+        return []
+    new = [k for k in keys if k not in base["sites"]]
+    kinds = []
+    for k in new:
+        for pre, ks in base["files_to_kinds"].items():
+            if k.split("|")[0].startswith(pre):
+                kinds += [x for x in ks if x not in kinds]
+    out.extra["state_audit"] = {"sites": len(keys), "new_sites": new, "more_related_groups_for": kinds}
+    return kinds
 
 
 def run(ctx, out, replay=None):
     quick = ctx.quick()
-    ngroups = 45 if quick else 800
+    _t("start")
+    ngroups = 45 if quick else 620
+    nrelated = 36 if quick else 400
     out.rule = ("(history, probe) pairs: probe = netlist load + verdict / orthogon recognition of a hard module / die "
                 "decomposition (with fixed rectangles of a netlist) / allocation + refine, griddify, uniform depth / "
                 "SAT posting sequence / legaliser Model construction / Strop / objects built from default arguments; "
                 "history = 1-12 such operations on other designs rescaled by 2^-9..2^9 within the factor-1000 rule; "
                 "exact-stream geometric probes come in a robust and a non-robust variant (a shift of 2^j times the "
-                "probe's own tolerance, distance or area). non-trivial = non-empty history; distinct by hash")
+                "probe's own tolerance, distance or area). RELATED histories (harness/props/c20_related.py): "
+                "near-duplicates of the probed design - the design itself (0-3 times), the same rectangles / modules "
+                "/ nets / cells / terms / variables in another order, one field different (tag, ratio, depth, bound, "
+                "polarity, coefficient, one coordinate 2^-20 away), dies over exactly the same cut coordinates with "
+                "other occupied cells (every single-cell move / addition / removal of a base pattern, the "
+                "complement), transposed / mirrored / rescaled by 2, the same rectangles through another class, the "
+                "same document as text or with integers - interleaved with 0-3 unrelated operations; the probe and "
+                "up to three of its near-duplicates are each executed at the end of that history. "
+                "non-trivial = non-empty history; distinct by (order-sensitive) hash")
     cases = []
     if replay and "case" in replay:
         cases.append(fr.unjson(replay["case"]))
@@ -995,9 +1265,22 @@ def run(ctx, out, replay=None):
     ncorpus = len(cases)
     for _ in range(ngroups):
         cases += gen_group(ctx.rng, ctx.rng.choice([3, 4, 5]))
+    nrel = 0
+    kinds = [REL_KINDS[i % len(REL_KINDS)] for i in range(nrelated)]
+    # process-wide state the checked tree has and the pinned tree had not (static audit; informative): more
+    # histories of near-duplicates for the operations of the files concerned
+    extra = audit_state(out)
+    kinds += (extra * 3)[:12 if quick else 120]
+    nunrel = len(cases)
+    for k in kinds:
+        g = gen_related_group(ctx.rng, k)
+        nrel += len(g)
+        cases += g
     # JSON round trip so that replayed and generated cases have the same representation
     cases = [fr.unjson(json.loads(json.dumps(fr.tojson(c)))) for c in cases]
+    _t("generation")
     _CACHE.update(run_batch(cases, par=10))
+    _t("workers")
     stats = {"pairs": len(cases), "digests_differ": 0, "explained_by_first_writer": 0, "histories_installing_eps": 0,
              "probe_eps_differs": 0, "corpus": ncorpus}
     for c in cases:
@@ -1013,11 +1296,14 @@ def run(ctx, out, replay=None):
         if o.get("eps_hist") and o.get("eps_own") and o["eps_hist"] != o["eps_own"]:
             stats["probe_eps_differs"] += 1
     fr.run_cases(ctx, out, cases, run_impl, to_coq, oracle, failure_key, HEADER, dist_key=dist_key,
-                 nontrivial=nontrivial, shard=60, shrink=shrink)
+                 nontrivial=nontrivial, shard=24 if quick else 60, shrink=shrink)
+    _t(f"run_cases (shrinking {SHRINK_T[0]:.1f}s in {SHRINK_T[1]} batches + model evaluation)")
     # how many exact probes the model calls robust
     rob = [(c, robust_expr(c)) for c in cases]
     rob = [(c, e) for c, e in rob if e is not None and "crash" not in _CACHE.get(case_key(c), {})]
-    vals = core.coq_eval_bools(ctx, HEADER, [e for _, e in rob], shard=80, tag="robust")
+    # a sample: the implication robust -> same is part of every case's model check anyway
+    rob = rob[:48] if quick else (rob if len(rob) <= 800 else rob[:400] + rob[-400:])
+    vals = core.coq_eval_bools(ctx, HEADER, [e for _, e in rob], shard=12 if quick else 80, tag="robust")
     nrob = sum(1 for v in vals if v is True)
     stats["exact_probes"] = len(rob)
     stats["exact_probes_robust"] = nrob
@@ -1027,6 +1313,9 @@ def run(ctx, out, replay=None):
     stats["nonrobust_probes_that_differ"] = sum(
         1 for (c, _), v in zip(rob, vals)
         if v is False and _CACHE[case_key(c)]["alone"]["digest"] != _CACHE[case_key(c)]["after"]["digest"])
+    stats["related_pairs"] = nrel
     out.extra["c20_stats"] = stats
-    fresh_crosscheck(ctx, out, [c for c in cases if "crash" not in _CACHE.get(case_key(c), {})][ncorpus:],
-                     6 if quick else 40)
+    _t("robust count")
+    okc = lambda cs: [c for c in cs if "crash" not in _CACHE.get(case_key(c), {})]
+    nf = 3 if quick else 20
+    fresh_crosscheck(ctx, out, okc(cases[ncorpus:nunrel])[:nf] + okc(cases[nunrel:])[:nf], 2 * nf)
